@@ -2,6 +2,7 @@ import CfbVerif.Props.C01
 import CfbVerif.Props.C06
 import CfbVerif.Dir.Slots
 import CfbVerif.Phys.Content
+import CfbVerif.Phys.MiniContent
 /-!
 # C07 — open handles stay bound to their stream and never touch other objects
 
@@ -136,5 +137,56 @@ example :
   · intro id hid
     simp only [List.mem_cons, List.not_mem_nil, or_false] at hid
     rcases hid with rfl | rfl <;> simp [Phys.create]
+
+/-! ### (iii) one level down: the mini-chain layer (`Phys/MiniContent.lean`) -/
+
+/-- **the mini-chain layer stores and returns the bytes** of streams below the cutoff: writing `bs` at
+`off` inside a mini chain `mids` (the `write_all` loop over `MiniChain::write`: mini sector by mini
+sector, each located in the mini stream — the root entry's chain `root` — by `locateMini`) and
+reading the range back (`read_exact` over `MiniChain::read`) returns `bs`; the mini chain's bytes
+are the old ones with exactly `[off, off + len)` replaced; no sector outside the root chain is
+touched, and no byte of the mini stream outside the mini sectors of `mids`. -/
+theorem C07_mini_write_read {root : List Nat} (p : Phys.P) (mids : List Nat) (off : Nat) (bs : Phys.Bytes)
+    (ss : Phys.SS p) (hroot : Phys.chainIds p p.rootStart = .ok root) (hp : Phys.Present p root) (ndr : root.Nodup)
+    (nd : mids.Nodup) (hin : ∀ m ∈ mids, m / p.per < root.length) (hlen : off + bs.length ≤ mids.length * 64) :
+    ∃ p', Phys.miniChainWrite (bs.length + 2) p mids off bs = .ok (p', mids) ∧
+      Phys.miniChainRead (bs.length + 2) p' mids off bs.length [] = .ok bs ∧
+      Phys.miniBytes p' root mids =
+        (Phys.miniBytes p root mids).take off ++ bs ++ (Phys.miniBytes p root mids).drop (off + bs.length) ∧
+      (∀ i, i ∉ root → p'.sectors[i]? = p.sectors[i]?) ∧
+      (∀ i, (∀ m ∈ mids, ¬ (m * 64 ≤ i ∧ i < m * 64 + 64)) → Phys.byteAt p' root i = Phys.byteAt p root i) :=
+  Phys.miniChainWrite_read p mids off bs ss hroot hp ndr nd hin hlen
+
+/-- **… and changes no other stream's bytes**: a mini chain `mids2` that shares no mini sector with the
+written one (every other small stream, by single ownership of mini sectors — `noShareMini_reachable`)
+and a regular chain `ids2` that shares no sector with the mini stream (every stream of at least 4096
+bytes, `C03_every_used_sector_owned_once`) hold the same bytes before and after -/
+theorem C07_mini_write_frame {root : List Nat} (p : Phys.P) (mids mids2 ids2 : List Nat) (off : Nat) (bs : Phys.Bytes)
+    (ss : Phys.SS p) (hroot : Phys.chainIds p p.rootStart = .ok root) (hp : Phys.Present p root) (ndr : root.Nodup)
+    (nd : mids.Nodup) (hin : ∀ m ∈ mids, m / p.per < root.length) (hlen : off + bs.length ≤ mids.length * 64)
+    (hin2 : ∀ m ∈ mids2, m / p.per < root.length) (hdisjM : ∀ m ∈ mids2, m ∉ mids) (hdisjR : ∀ id ∈ ids2, id ∉ root) :
+    ∃ p', Phys.miniChainWrite (bs.length + 2) p mids off bs = .ok (p', mids) ∧
+      Phys.miniBytes p' root mids2 = Phys.miniBytes p root mids2 ∧ Phys.chainBytes p' ids2 = Phys.chainBytes p ids2 :=
+  Phys.miniChainWrite_frame p mids mids2 ids2 off bs ss hroot hp ndr nd hin hlen hin2 hdisjM hdisjR
+
+/-- the mini chain's byte list is what `miniByteAt` addresses through the root chain -/
+theorem C07_mini_bytes_get {p : Phys.P} (ss : Phys.SS p) {root : List Nat} (hp : Phys.Present p root) (mids : List Nat)
+    (hin : ∀ m ∈ mids, m / p.per < root.length) (j : Nat) :
+    (Phys.miniBytes p root mids)[j]? = Phys.miniByteAt p root mids j :=
+  Phys.miniBytes_get ss hp mids hin j
+
+/-- non-vacuity: a version-3 file whose mini stream is the one-sector chain [2] (eight mini sectors);
+the mini chain [5, 1, 6] of a 150-byte stream, 100 bytes written across two mini-sector boundaries
+at offset 40; the mini chain [0, 7] belongs to another stream.  The write and the read-back are
+evaluated, too: the bytes come back and the other stream's mini sectors are untouched. -/
+example :
+    let p : Phys.P := { Phys.create false with numSectors := 3, fat := #[Raw.FATSECT, Raw.END, Raw.END], rootStart := 2, rootLen := 512, sectors := #[Phys.zeroSector 512, Phys.zeroSector 512, Phys.zeroSector 512] }
+    Phys.chainIds p p.rootStart = .ok [2] ∧ (∀ m ∈ [5, 1, 6], m / p.per < [2].length) ∧ [5, 1, 6].Nodup ∧
+      40 + 100 ≤ [5, 1, 6].length * 64 ∧ (∀ m ∈ [0, 7], m ∉ [5, 1, 6]) := by
+  intro p
+  refine ⟨by rfl, ?_, by decide, by decide, by decide⟩
+  have hper : p.per = 8 := by decide
+  rw [hper]
+  decide
 
 end CfbVerif.Props.C07
